@@ -2,6 +2,7 @@ import PsV.Proofs.Glam
 import PsV.Proofs.GlamCont
 import PsV.Proofs.GlamIdx
 import PsV.Proofs.GlamListed
+import PsV.Proofs.GlamRound
 import PsV.Props.C01
 /-!
 # C17 — grid evaluation is the tensor-product B-spline sum, computed by mode products
@@ -15,7 +16,9 @@ arithmetic in `Model/GlamIdx.lean` + `Proofs/GlamIdx.lean`; flat sum and listed 
 Sections: 1 index bijection · 2 mode product · 3 grideval = tensor-product sum · 4/5 link to the pointwise
 convention (partial / full with the precise side condition, necessity, witnesses, link to C01's finding) ·
 6 no overflow of the `int` index arithmetic below 2³¹ columns · 7 flat n-d sum and the listed pattern ·
-8 agreement with the pointwise evaluation routine `ndsplineeval` at model level.
+8 agreement with the pointwise evaluation routine `ndsplineeval` at model level ·
+9 rounding: forward error of the basis recursion, of one slice multiplication and of the whole chain against
+the majorant `Σ|coef|·Π basis`, and grid vs pointwise evaluation both under rounding (`Proofs/GlamRound.lean`).
 -/
 namespace PsV
 open Arith
@@ -580,6 +583,243 @@ example : (⟨[⟨2, 7, 4, 1, fun i => (i : Rat)⟩], fun _ => 1⟩ : Table Rat)
     simp only [List.mem_singleton] at hd
     subst hd
     exact ⟨by decide, rfl, fun i j _ hij _ => by show ((i:Int):Rat) ≤ ((j:Int):Rat); exact_mod_cast hij⟩
+  · simp [searchCenters, searchAxis, Dim.axis, bsearch, Cmp.lt, Cmp.le]
+    norm_num
+  · exact List.Forall₂.cons ⟨by norm_num, Or.inl (by norm_num)⟩ List.Forall₂.nil
+
+/-! ## 9. rounding
+
+The same model definitions run at `Arith.rounded fl st` (every `+ − × ÷` followed by a rounding `fl` of relative
+error `ε`: `RelErr ε 1 a (fl a)`, the standard model without underflow/overflow; IEEE double is `ε = u/(1-u)`,
+`u = 2^-53`, `C01_standard_model`) against the run at exact arithmetic.  Inputs (knots, abscissae, coefficients)
+are exactly represented.  `TRel ε k E R M`: the exact, the rounded and the majorant tensor (exact arithmetic on
+the magnitudes) list the same index tuples entry by entry, and every rounded entry is within `gfac ε k · m` of the
+exact one, `m` the majorant entry. -/
+section rounding
+variable {F : Type} [Field F] [LinearOrder F] [IsStrictOrderedRing F] {ε : F} {fl st : F → F}
+attribute [local instance] Arith.ofField
+
+/-- **The recursive basis value `bspline(knots, x, i, n)` under rounding.**  On a non-decreasing knot window
+`t_i ≤ … ≤ t_{i+n+1}` the rounded value carries at most `5n` roundings (per level and term: one subtraction
+`x − t_i` / `t_{i+n+1} − x` of exactly represented inputs, one product, one knot difference, one quotient; one sum),
+all terms are non-negative (no cancellation), so the relative error is `gfac ε (5n)`; the value vanishes outside
+`[t_i, t_{i+n+1})`. -/
+theorem C17_basis_rounding (hε : 0 ≤ ε) (hfl : ∀ a, RelErr ε 1 a (fl a)) (t : Int → F) (x : F) (n : Nat) (i : Int)
+    (hm : MonoOn t i (i + n + 1)) :
+    RelErr ε (5 * n) (bsplineG t x n i) (bsplineG (A := Arith.rounded fl st) t x n i) ∧
+      0 ≤ bsplineG t x n i ∧
+      |bsplineG (A := Arith.rounded fl st) t x n i - bsplineG t x n i| ≤ gfac ε (5 * n) * bsplineG t x n i ∧
+      (bsplineG t x n i ≠ 0 → t i ≤ x ∧ x < t (i + n + 1)) := by
+  obtain ⟨h1, h2, h3⟩ := bsplineG_relerr (st := st) hε hfl t x n i hm
+  refine ⟨h1, h2, ?_, h3⟩
+  have := h1.abs_sub hε
+  rwa [abs_of_nonneg h2] at this
+
+/-- **One slice multiplication under rounding** (`slicemultiply(a, b, dim)`, per output cell a dot product).
+Basis matrix non-negative and known up to `kb` roundings, input entries within `gfac ε k` of the majorant:
+the three runs succeed together, every *entry* of the result carries `k + kb + 1` roundings, and every *cell*
+(the `N = nlisted` entries listed at the index are added up) satisfies
+`|rounded − exact| ≤ gfac ε (k + kb + 1 + N) · majorant`, where exact cell and majorant cell are the dot products
+`Σ_j b[j, idx_dim] · a(idx with entry dim := j)` of the exact resp. majorant input. -/
+theorem C17_slicemultiply_rounding (hε : 0 ≤ ε) (hfl : ∀ a, RelErr ε 1 a (fl a)) {k kb : Nat}
+    {aE aR aM : NdSparse F} (h : TRel ε k aE aR aM) (bE bR : Mat F) (dim : Nat)
+    (hnr : bR.nrow = bE.nrow) (hnc : bR.ncol = bE.ncol)
+    (hb : ∀ j g, j < bE.nrow → g < bE.ncol → RelErr ε kb (bE.val j g) (bR.val j g) ∧ 0 ≤ bE.val j g)
+    (hwf : aE.WF) (hd : dim < aE.ranges.length) (hdim : bE.nrow = aE.ranges.getD dim 0) :
+    ∃ cE cR cM, sliceMultiply aE bE dim = some cE ∧
+      sliceMultiply (A := Arith.rounded fl st) aR bR dim = some cR ∧
+      sliceMultiply aM bE dim = some cM ∧ TRel ε (k + kb + 1) cE cR cM ∧
+      ∀ idx, |cR.get (A := Arith.rounded fl st) idx - cE.get idx|
+            ≤ gfac ε (k + kb + 1 + cE.nlisted idx) * cM.get idx ∧
+        (IdxIn idx cE.ranges →
+          cE.get idx = ∑ j ∈ Finset.range bE.nrow, bE.val j (idx.getD dim 0) * aE.get (idx.set dim j) ∧
+          cM.get idx = ∑ j ∈ Finset.range bE.nrow, bE.val j (idx.getD dim 0) * aM.get (idx.set dim j)) := by
+  obtain ⟨cE, cR, cM, s1, s2, s3, s4⟩ := sliceMultiply_rel (st := st) hε hfl h bE bR dim hnr hnc hb hwf hd hdim
+  refine ⟨cE, cR, cM, s1, s2, s3, s4, fun idx => ⟨(s4.get hε hfl idx).1, fun hidx => ?_⟩⟩
+  obtain ⟨cE', t1, t2, _, t4⟩ := slice_is_mode_product aE bE dim hwf hd hdim
+  obtain ⟨cM', u1, u2, _, u4⟩ := slice_is_mode_product aM bE dim (h.wfM hwf) (by rw [h.rM]; exact hd)
+    (by rw [h.rM]; exact hdim)
+  have e1 : cE' = cE := Option.some.inj (t1.symm.trans s1)
+  have e2 : cM' = cM := Option.some.inj (u1.symm.trans s3)
+  subst e1; subst e2
+  exact ⟨t4 idx hidx, u4 idx (by rw [s4.rM]; exact hidx)⟩
+
+/-- **Forward error of grid evaluation** (model at rounded arithmetic vs the same model exact).  For a
+well-formed dimension list with non-decreasing knots and any grid, the rounded run, the exact run and the exact
+run on the magnitudes of the coefficients succeed together, and at **every** index tuple `g`
+`|rounded(g) − exact(g)| ≤ gfac ε K · majorant(g)`, `K = Σ_d (5·order_d + 1) + N(g)` (`gridRoundCount dims`: the
+roundings of the basis recursion and of the product with the basis value, per dimension; `N(g) = nlisted`: the
+number of non-zero terms of the cell, each addition one rounding); at a grid point the exact value is the
+tensor-product sum `Σ coef·Π_d B_d(x_d)` and the majorant is `Σ |coef|·Π_d B_d(x_d)`.
+
+`_partial` because of two things, neither a hypothesis on the input: (1) the rounding model — `RelErr ε 1 a (fl a)`
+for every operation, i.e. no underflow and no overflow; (2) the order of the additions: the model keeps the
+products of a cell as separate list entries and adds them up when the cell is read (`NdSparse.get`), whereas
+CHOLMOD's `ssmult` adds them up slice by slice (and in an order of its own).  Any order of recursive summation of
+`N` terms puts at most `N` additions on a term, and summing slice by slice at most `Σ_d n_d ≤ N + ndim − 1`
+(`n_d` the length of the dot product in dimension `d` on the way to the cell: every further summand of a dot
+product accounts for at least one further term of the cell), so the envelope that the check applies to the real
+code is this theorem's with `ndim` added to `K` (`C17_grideval_rounding_envelope_tie_partial`). -/
+theorem C17_grideval_rounding_envelope_partial (hε : 0 ≤ ε) (hfl : ∀ a, RelErr ε 1 a (fl a))
+    (dims : List (Dim F)) (coef : Int → F) (coords : List (List F)) (hwf : GridTableWF dims)
+    (hmono : ∀ d ∈ dims, d.KnotsMono) (hlen : coords.length = dims.length) :
+    ∃ rE rR rM, gridEval dims coef coords = some rE ∧
+      gridEval (A := Arith.rounded fl st) dims coef coords = some rR ∧
+      gridEval dims (fun i => |coef i|) coords = some rM ∧
+      (∀ g, |rR.get (A := Arith.rounded fl st) g - rE.get g|
+          ≤ gfac ε (gridRoundCount dims + rE.nlisted g) * rM.get g) ∧
+      ∀ g xs, gridPoint coords g = some xs →
+        rE.get g = gridSpec dims coef xs ∧ rM.get g = gridSpec dims (fun i => |coef i|) xs := by
+  obtain ⟨rE, rR, rM, g1, g2, g3, g4⟩ := gridEval_rel (st := st) hε hfl dims coef coords hwf hmono hlen
+  refine ⟨rE, rR, rM, g1, g2, g3, fun g => (g4.get hε hfl g).1, fun g xs hg => ?_⟩
+  obtain ⟨nd, t1, _, _, t4⟩ := grideval_eq_spec dims coef coords hwf hlen
+  obtain ⟨nd', u1, _, _, u4⟩ := grideval_eq_spec dims (fun i => |coef i|) coords hwf hlen
+  have e1 : nd = rE := Option.some.inj (t1.symm.trans g1)
+  have e2 : nd' = rM := Option.some.inj (u1.symm.trans g3)
+  subst e1; subst e2
+  exact ⟨t4 g xs hg, u4 g xs hg⟩
+
+/-- the envelope the check applies to the real code: `K = Σ_d (5·order_d + 1) + ndim + N(g)` (a weakening of
+`C17_grideval_rounding_envelope_partial` by `ndim`, which covers summation slice by slice, see there) -/
+theorem C17_grideval_rounding_envelope_tie_partial (hε : 0 ≤ ε) (hfl : ∀ a, RelErr ε 1 a (fl a))
+    (dims : List (Dim F)) (coef : Int → F) (coords : List (List F)) (hwf : GridTableWF dims)
+    (hmono : ∀ d ∈ dims, d.KnotsMono) (hlen : coords.length = dims.length) :
+    ∃ rE rR rM, gridEval dims coef coords = some rE ∧
+      gridEval (A := Arith.rounded fl st) dims coef coords = some rR ∧
+      gridEval dims (fun i => |coef i|) coords = some rM ∧
+      ∀ g, |rR.get (A := Arith.rounded fl st) g - rE.get g|
+          ≤ gfac ε (gridRoundCount dims + dims.length + rE.nlisted g) * rM.get g := by
+  obtain ⟨rE, rR, rM, g1, g2, g3, g4⟩ := gridEval_rel (st := st) hε hfl dims coef coords hwf hmono hlen
+  refine ⟨rE, rR, rM, g1, g2, g3, fun g => ?_⟩
+  have h := g4.get (st := st) hε hfl g
+  exact le_trans h.1 (mul_le_mul_of_nonneg_right (gfac_mono hε (by omega)) (le_trans (abs_nonneg _) h.2))
+
+/-- **Grid evaluation and pointwise evaluation, both under rounding.**  For a well-formed table (C01's `Table.WF`,
+row-major strides) and any grid: at every grid point the lookup accepts that lies below the last knot in every
+dimension and is not in the configuration of C01's known finding, the rounded grid value and the rounded value of
+the pointwise routine `ndsplineeval` differ by at most the sum of the two envelopes,
+`(gfac ε K₁₇ + gfac ε K₀₁) · Σ|coef|·Π basis`, `K₁₇ = Σ_d (5·order_d + 1) + N(g)`,
+`K₀₁ = 3 + ndim·(7n + 3) + 2·Π_d (order_d + 1)` (`n` = largest order).  Composition of
+`C17_grideval_rounding_envelope_partial`, `grideval_get_eq_pointwise_inside` and `C01_rounding_envelope_all_partial`
+(both sides at the same `fl`, `st`; the code evaluates pointwise in single precision, which is the instance
+`fl` = round to double, `st` = round to float, `ε` the larger of the two). -/
+theorem C17_grideval_near_pointwise (hε : 0 ≤ ε) (hfl : ∀ a, RelErr ε 1 a (fl a)) (hst : ∀ a, RelErr ε 1 a (st a))
+    (T : Table F) (coords : List (List F)) (n : Nat) (hT : T.WF) (hs : StridesRowMajor T.dims)
+    (hlen : coords.length = T.dims.length) (hn : ∀ d ∈ T.dims, d.order ≤ n) :
+    ∃ rE rR, gridEval T.dims T.coef coords = some rE ∧
+      gridEval (A := Arith.rounded fl st) T.dims T.coef coords = some rR ∧
+      ∀ g xs cs, gridPoint coords g = some xs →
+        @searchCenters F (cmpLO F) (T.dims.map Dim.axis) xs = .ok cs →
+        List.Forall₂ (fun d x => x < d.knots ((d.nknots : Int) - 1) ∧ NonDegenerate d x) T.dims xs →
+        |rR.get (A := Arith.rounded fl st) g - ndsplineeval (A := Arith.rounded fl st) T xs cs 0| ≤
+          (gfac ε (gridRoundCount T.dims + rE.nlisted g)
+            + gfac ε (3 + T.dims.length * (7 * n + 3) + 2 * blockSize T.dims)) *
+          specEval ⟨T.dims, fun i => |T.coef i|⟩ xs (List.replicate T.dims.length .value) := by
+  have hne : T.dims ≠ [] := by
+    intro h; have := hT.stride; rw [h] at this; exact this
+  have hg : GridTableWF T.dims := ⟨hne, fun d hd => (hT.dims d hd).naxes_eq, hs⟩
+  have hmono : ∀ d ∈ T.dims, d.KnotsMono := fun d hd => (hT.dims d hd).mono
+  obtain ⟨rE, rR, rM, g1, g2, g3, g4⟩ := gridEval_rel (st := st) hε hfl T.dims T.coef coords hg hmono hlen
+  obtain ⟨nd, t1, _, t3⟩ := grideval_get_eq_pointwise_inside T.dims T.coef coords hg hmono hlen
+  obtain ⟨nd', u1, _, u3⟩ := grideval_get_eq_pointwise_inside T.dims (fun i => |T.coef i|) coords hg hmono hlen
+  have e1 : nd = rE := Option.some.inj (t1.symm.trans g1)
+  have e2 : nd' = rM := Option.some.inj (u1.symm.trans g3)
+  subst e1; subst e2
+  refine ⟨nd, rR, g1, g2, fun g xs cs hgp hsc hx => ?_⟩
+  have hxl : T.dims.length = xs.length := by rw [gridPoint_length_grid coords g xs hgp, hlen]
+  have hnd : ∀ (ds : List (Dim F)) (ys : List F),
+      List.Forall₂ (fun d x => x < d.knots ((d.nknots : Int) - 1) ∧ NonDegenerate d x) ds ys →
+      AllNonDegenerate ds ys := by
+    intro ds ys h
+    induction h with
+    | nil => trivial
+    | cons hd _ ih => exact ⟨hd.2, ih⟩
+  have hA := (g4.get (st := st) hε hfl g).1
+  rw [t3 g xs hgp hx, u3 g xs hgp hx] at hA
+  have hB := C01_rounding_envelope_all_partial hε hfl hst T xs cs n hT hxl (hnd _ _ hx) hsc hn
+  have key : nd'.get g = specEval ⟨T.dims, fun i => |T.coef i|⟩ xs (List.replicate T.dims.length .value) :=
+    u3 g xs hgp hx
+  calc |rR.get (A := Arith.rounded fl st) g - ndsplineeval (A := Arith.rounded fl st) T xs cs 0|
+      = |(rR.get (A := Arith.rounded fl st) g - specEval ⟨T.dims, T.coef⟩ xs (List.replicate T.dims.length .value))
+          - (ndsplineeval (A := Arith.rounded fl st) T xs cs 0
+              - specEval ⟨T.dims, T.coef⟩ xs (List.replicate T.dims.length .value))| := by ring_nf
+    _ ≤ |rR.get (A := Arith.rounded fl st) g - specEval ⟨T.dims, T.coef⟩ xs (List.replicate T.dims.length .value)|
+          + |ndsplineeval (A := Arith.rounded fl st) T xs cs 0
+              - specEval ⟨T.dims, T.coef⟩ xs (List.replicate T.dims.length .value)| := abs_sub _ _
+    _ ≤ _ := by rw [add_mul]; exact add_le_add hA hB
+
+end rounding
+
+/-! ### non-vacuity of section 9 (all at `Rat`) -/
+
+/-- `C17_basis_rounding`: a rounding that is not the identity (`fl a = 17/16·a`, within `ε = 1/8`) and a
+non-decreasing knot window for `B_{0,2}` on the knots `0,1,2,3`. -/
+example : (0 : Rat) ≤ 1/8 ∧ (∀ a : Rat, RelErr (1/8 : Rat) 1 a (a * (17/16))) ∧
+    MonoOn (fun i : Int => (i : Rat)) 0 (0 + (2 : Nat) + 1) := by
+  refine ⟨by norm_num, fun a => ⟨17/16, rfl, by norm_num, by norm_num⟩, ?_⟩
+  intro a b _ hab _
+  show ((a : Int) : Rat) ≤ ((b : Int) : Rat)
+  exact_mod_cast hab
+
+/-- `C17_slicemultiply_rounding`: the 2×3×2 tensor of section 2 as an exactly known input (`TRel.ofExact`: rounded
+run from the same values, majorant from the magnitudes, `k = 0`), a non-negative 3×4 matrix known exactly
+(`kb = 0`), `dim = 1`. -/
+example :
+    let a : NdSparse Rat := ⟨[2,3,2], [([1,2,0], 5), ([0,1,1], -2)]⟩
+    let b : Mat Rat := ⟨3, 4, fun i j => if i ≤ j then (i : Rat) + 1 else 0⟩
+    TRel (1/8 : Rat) 0 a a ⟨a.ranges, a.entries.map fun e => (e.1, |e.2|)⟩ ∧
+    (∀ j g, j < b.nrow → g < b.ncol → RelErr (1/8 : Rat) 0 (b.val j g) (b.val j g) ∧ 0 ≤ b.val j g) ∧
+    a.WF ∧ 1 < a.ranges.length ∧ b.nrow = a.ranges.getD 1 0 := by
+  refine ⟨TRel.ofExact _, fun j g _ _ => ⟨RelErr.refl (by norm_num) _, ?_⟩, ?_, by decide, rfl⟩
+  · simp only
+    split
+    · positivity
+    · exact le_refl _
+  · intro e he
+    simp only [List.mem_cons, List.not_mem_nil, or_false] at he
+    rcases he with rfl | rfl
+    · exact ⟨rfl, by decide⟩
+    · exact ⟨rfl, by decide⟩
+
+/-- `C17_grideval_rounding_envelope_partial`: the 2-d table of section 3 (orders 2 and 1, knots `0,1,2,…`),
+a 3×1 grid, non-decreasing knots, the non-identity rounding. -/
+example :
+    let dims : List (Dim Rat) := [⟨2, 7, 4, 2, fun i => (i : Rat)⟩, ⟨1, 4, 2, 1, fun i => (i : Rat)⟩]
+    let coords : List (List Rat) := [[1/2, 5/2, 3], [5/2]]
+    GridTableWF dims ∧ (∀ d ∈ dims, d.KnotsMono) ∧ coords.length = dims.length ∧
+      (∀ a : Rat, RelErr (1/8 : Rat) 1 a (a * (17/16))) := by
+  refine ⟨⟨by simp, ?_, ⟨rfl, rfl⟩⟩, ?_, rfl, fun a => ⟨17/16, rfl, by norm_num, by norm_num⟩⟩
+  · intro d hd
+    simp only [List.mem_cons, List.not_mem_nil, or_false] at hd
+    rcases hd with rfl | rfl <;> rfl
+  · intro d hd
+    simp only [List.mem_cons, List.not_mem_nil, or_false] at hd
+    rcases hd with rfl | rfl <;>
+    · intro i j _ hij _
+      show ((i : Int) : Rat) ≤ ((j : Int) : Rat)
+      exact_mod_cast hij
+
+/-- `C17_grideval_near_pointwise`: C01's example table (order 2, knots 0..6, stride 1), the one-point grid
+`x = 7/2` accepted with centre 3, below the last knot, non-degenerate, orders ≤ 2, roundings `fl a = 17/16·a`
+and `st a = 15/16·a` within `ε = 1/8`. -/
+example : (⟨[⟨2, 7, 4, 1, fun i => (i : Rat)⟩], fun _ => 1⟩ : Table Rat).WF ∧
+    StridesRowMajor [(⟨2, 7, 4, 1, fun i => (i : Rat)⟩ : Dim Rat)] ∧
+    (∀ d ∈ [(⟨2, 7, 4, 1, fun i => (i : Rat)⟩ : Dim Rat)], d.order ≤ 2) ∧
+    (∀ a : Rat, RelErr (1/8 : Rat) 1 a (a * (17/16))) ∧ (∀ a : Rat, RelErr (1/8 : Rat) 1 a (a * (15/16))) ∧
+    gridPoint ([[7/2]] : List (List Rat)) [0] = some [7/2] ∧
+    @searchCenters Rat (cmpLO Rat) [Dim.axis (⟨2, 7, 4, 1, fun i => (i : Rat)⟩ : Dim Rat)] [(7/2 : Rat)] = .ok [3] ∧
+    List.Forall₂ (fun (d : Dim Rat) x => x < d.knots ((d.nknots : Int) - 1) ∧ NonDegenerate d x)
+      [(⟨2, 7, 4, 1, fun i => (i : Rat)⟩ : Dim Rat)] [(7/2 : Rat)] := by
+  refine ⟨⟨?_, rfl⟩, rfl, ?_, fun a => ⟨17/16, rfl, by norm_num, by norm_num⟩,
+    fun a => ⟨15/16, rfl, by norm_num, by norm_num⟩, rfl, ?_, ?_⟩
+  · intro d hd
+    simp only [List.mem_singleton] at hd
+    subst hd
+    exact ⟨by decide, rfl, fun i j _ hij _ => by show ((i:Int):Rat) ≤ ((j:Int):Rat); exact_mod_cast hij⟩
+  · intro d hd
+    simp only [List.mem_singleton] at hd
+    subst hd
+    exact le_refl _
   · simp [searchCenters, searchAxis, Dim.axis, bsearch, Cmp.lt, Cmp.le]
     norm_num
   · exact List.Forall₂.cons ⟨by norm_num, Or.inl (by norm_num)⟩ List.Forall₂.nil
